@@ -10,6 +10,7 @@ package shmipc
 
 import (
 	"bytes"
+	"encoding/binary"
 	"encoding/json"
 	"fmt"
 	"os"
@@ -234,8 +235,26 @@ func (sessScenario) Gen(r *Rng, tier string, opts map[string]string) interface{}
 	if !p.Faulty {
 		p.Cfg.Spurious = 0
 	}
+	burst := prop == "C05" && r.Chance(1, 20)
+	if burst {
+		// thousands of queue elements produced while the consumer is off the CPU, drained in one go
+		ns = 1
+		p.Cfg.QueueCap = 8192
+		p.Cfg.Slices = [][2]uint32{{64, 100}}
+		p.Sim.PointMean = 0
+		p.Sim.MaxSteps = 1500000
+	}
 	for i := 0; i < ns; i++ {
 		var sp streamPlan
+		if burst {
+			n := r.Pick(300, 2100, 2500, 4200)
+			sp.C2S.W = []wOp{{K: "burst", N: n}}
+			sp.C2S.R = []rOp{{K: "deadline", N: 30000}, {K: "rb", N: n}, {K: "release"}}
+			p.Streams = append(p.Streams, sp)
+			p.Chaos = []nbOp{{K: "stall", N: 400, Side: 1}}
+			p.Faulty = true
+			continue
+		}
 		budget := r.Pick(200, 2000, 20000, 120000)
 		nm := 1 + r.Intn(5)
 		total := 0
@@ -617,6 +636,7 @@ type sessWorld struct {
 	thr           []*thread
 	fdC, fdS      int
 	sockC         *ssys.Sock
+	tap           [2][]byte
 	hsDone        bool
 }
 
@@ -862,6 +882,11 @@ func (w *sessWorld) main(dir string) {
 	}
 	w.estStep = simrt.Steps()
 	w.established = true
+	if w.on("C18") {
+		// wire tap (after the handshake): everything either event loop will read
+		w.sockC.Tap = func(dir int, b []byte) { w.tap[0] = append(w.tap[0], b...) }
+		w.sockC.Peer().Tap = func(dir int, b []byte) { w.tap[1] = append(w.tap[1], b...) }
+	}
 	if p.Accept {
 		simrt.GoProc(w.ps, "acceptor", func() {
 			simrt.MarkDaemon()
@@ -1264,6 +1289,27 @@ func (w *sessWorld) writer(ss *sessStream, dir int) {
 			_ = st.SetWriteDeadline(time.Now().Add(time.Duration(op.N) * time.Millisecond))
 		case "close":
 			w.closeEnd(ss, wend, 0)
+		case "burst":
+			for k := 0; k < op.N && !simrt.Failed(); k++ {
+				data := msgBytes(ss.idx, dir, d.msgIdx, 1)
+				d.msgIdx++
+				sg := &seg{data: data, status: 0}
+				d.m.segs = append(d.m.segs, sg)
+				d.allBytes++
+				es.inCall[0]++
+				_, _ = st.BufferWriter().WriteBytes(data)
+				err := st.Flush(false)
+				es.inCall[0]--
+				if err == nil {
+					sg.status, sg.doneAt = 1, simrt.Now()
+					d.sureBytes++
+					d.usedShm = true
+				} else {
+					sg.status = 2
+					w.probe("flush_failed")
+				}
+			}
+			w.probe("burst")
 		case "msg", "write":
 			n := wopBytes(op)
 			data := msgBytes(ss.idx, dir, d.msgIdx, n)
@@ -1871,7 +1917,56 @@ func (w *sessWorld) closeTags(ss *sessStream, closerEnd int) map[string]string {
 	return tags
 }
 
+// checkTap runs an independent reference parser over the bytes that crossed each control connection: whole
+// events only (writes of concurrent senders never interleave inside an event).
+func (w *sessWorld) checkTap() {
+	names := []string{"server->client", "client->server"}
+	for i := 0; i < 2; i++ {
+		b := w.tap[i]
+		off, n := 0, 0
+		for off < len(b) {
+			if len(b)-off < headerSize {
+				w.fail("C18.interleaved", "%s: %d stray bytes at offset %d after %d whole events", names[i], len(b)-off, off, n)
+				return
+			}
+			l := int(binary.BigEndian.Uint32(b[off : off+4]))
+			magic := binary.BigEndian.Uint16(b[off+4 : off+6])
+			ver, typ := b[off+6], b[off+7]
+			bad := ""
+			switch {
+			case magic != magicNumber:
+				bad = "bad magic"
+			case ver != 2 && ver != 3:
+				bad = "bad version"
+			case typ > uint8(maxEventType):
+				bad = "bad type"
+			case l < headerSize || off+l > len(b):
+				bad = "length does not fit"
+			case eventType(typ) == typePolling && l != headerSize:
+				bad = "polling event with a body"
+			case eventType(typ) == typeStreamClose && l != headerSize+4:
+				bad = "close event of wrong length"
+			case eventType(typ) == typeFallbackData && l < headerSize+8:
+				bad = "fallback event too short"
+			}
+			if bad != "" {
+				w.fail("C18.interleaved", "%s: after %d whole events the bytes at offset %d are not an event (%s: len=%d magic=%#x ver=%d type=%d): concurrent writers interleaved or bytes were lost/duplicated", names[i], n, off, bad, l, magic, ver, typ)
+				return
+			}
+			off += l
+			n++
+		}
+		w.probes["tap_events"] += int64(n)
+	}
+}
+
 func (w *sessWorld) finalOracles() {
+	if w.on("C18") {
+		w.checkTap()
+		if simrt.Failed() {
+			return
+		}
+	}
 	if w.sessionDead() {
 		if w.on("C14") {
 			w.fail("C14.session_died", "a session closed although no fault was injected")
